@@ -121,14 +121,51 @@ func opaqueDecls(ot *OpaqueType) string {
 			}
 		}
 	}
+	// functional update of a scalar field: Sort.set.Field(x, v) is x with that field replaced
+	for i := 0; i < st.NumFields(); i++ {
+		f := st.Field(i)
+		fs, ok := scalarSort(f.Type())
+		if !ok {
+			continue
+		}
+		set := ot.Sort + ".set." + f.Name()
+		b.WriteString(fmt.Sprintf("(declare-fun %s (%s %s) %s)\n", set, ot.Sort, fs, ot.Sort))
+		for j := 0; j < st.NumFields(); j++ {
+			g := st.Field(j)
+			a := accName(ot.Sort, g.Name())
+			if _, ok := scalarSort(g.Type()); ok {
+				rhs := fmt.Sprintf("(%s x)", a)
+				if j == i {
+					rhs = "v"
+				}
+				b.WriteString(fmt.Sprintf("(assert (forall ((x %s) (v %s)) (! (= (%s (%s x v)) %s) :pattern ((%s x v)))))\n", ot.Sort, fs, a, set, rhs, set))
+				continue
+			}
+			if sl, ok := g.Type().Underlying().(*types.Slice); ok {
+				if _, ok := scalarSort(sl.Elem()); ok {
+					b.WriteString(fmt.Sprintf("(assert (forall ((x %s) (v %s)) (! (= (%s.len (%s x v)) (%s.len x)) :pattern ((%s x v)))))\n", ot.Sort, fs, a, set, a, set))
+					b.WriteString(fmt.Sprintf("(assert (forall ((x %s) (v %s) (j Int)) (! (= (%s.at (%s x v) j) (%s.at x j)) :pattern ((%s.at (%s x v) j)))))\n", ot.Sort, fs, a, set, a, a, set))
+				}
+			}
+		}
+	}
 	return b.String()
 }
 
 // opaqueUpdate: a copy of opaque value v with field `name` replaced (by-value
 // struct assignment). Returns the new term and the facts that define it.
 func opaqueUpdate(st *State, ot *OpaqueType, v string, name string, nv Value) string {
-	n := st.freshConst(strings.ToLower(ot.Sort), ot.Sort)
 	s := ot.T.Underlying().(*types.Struct)
+	for i := 0; i < s.NumFields(); i++ {
+		if f := s.Field(i); f.Name() == name {
+			if _, ok := scalarSort(f.Type()); ok {
+				if sc, ok := nv.(Sc); ok {
+					return app(ot.Sort+".set."+name, v, sc.T)
+				}
+			}
+		}
+	}
+	n := st.freshConst(strings.ToLower(ot.Sort), ot.Sort)
 	for i := 0; i < s.NumFields(); i++ {
 		f := s.Field(i)
 		if ss, ok := scalarSort(f.Type()); ok {
